@@ -154,6 +154,9 @@ type poolOpts struct {
 	workers   int
 	env       []string
 	maxViol   int // stop early after this many violations (0 = no limit)
+	// known: violation classes listed as known findings; they do not count towards maxViol (a
+	// known finding hit many times must not end the search before an unknown one is met)
+	known map[string]bool
 }
 
 func workerEnv(extra []string) []string {
@@ -260,7 +263,13 @@ func runPoolRecording(o *poolOpts, onRun func(*wline)) *aggregate {
 		spawn()
 	}
 	assign := func(w *workerProc) {
-		if len(queue) == 0 || (o.maxViol > 0 && len(agg.violations)+len(agg.suspects) >= o.maxViol) {
+		unknown := len(agg.suspects)
+		for _, v := range agg.violations {
+			if !o.known[v.Class] {
+				unknown++
+			}
+		}
+		if len(queue) == 0 || (o.maxViol > 0 && unknown >= o.maxViol) {
 			w.closing = true
 			w.hasChunk = false
 			w.stdin.Close()
